@@ -55,6 +55,13 @@ Theorem everything_created_is_under_out_name c s q :
 Proof. exact (out_flag_selects_parent params_go c s q). Qed.
 Print Assumptions everything_created_is_under_out_name.
 
+(* nothing is created inside a directory (or through a link) that existed before: the package directory is new *)
+Theorem package_directory_is_created_by_the_run c s q :
+  lookup (r_fs (run params_go c s)) q <> lookup s q ->
+  exists g d l, c_arg c = Readable (PAccepted g d l) /\ lookup s (join (c_out c) (package_name params_go c g)) = None.
+Proof. apply package_directory_is_new. vm_compute. reflexivity. Qed.
+Print Assumptions package_directory_is_created_by_the_run.
+
 (* non-vacuity: an accepted specification into an empty directory *)
 Example success_example :
   let c := {| c_flag_error := None; c_help := false; c_version := false; c_name := ""; c_out := "out";
